@@ -161,6 +161,7 @@ func TestPlan(t *testing.T) {
 		p.Shards = append(p.Shards, ev.ShardSpec{Name: "unprivileged-0", Test: "^TestFindUnprivileged$", AsNobody: true, TimeoutS: 900})
 		p.Shards = append(p.Shards, ev.ShardSpec{Name: "relative-0", Test: "^TestFindRelative$", TimeoutS: 600})
 		p.Shards = append(p.Shards, ev.ShardSpec{Name: "deep-0", Test: "^TestFindDeep$", TimeoutS: 1200})
+		p.Shards = append(p.Shards, ev.ShardSpec{Name: "names-0", Test: "^TestFindNames$", TimeoutS: 600})
 	}
 	if err := ev.WritePlan(p); err != nil {
 		t.Fatal(err)
@@ -398,6 +399,48 @@ func TestFindRelative(t *testing.T) {
 	}
 }
 
+// TestFindNames: every odd directory name (pattern characters, blanks, format verbs, other scripts)
+// in every position of a chain of three levels, with a look-alike sibling that has a spokfile.
+func TestFindNames(t *testing.T) {
+	s := ev.Open(t, "C17")
+	s.Watchdog(10*time.Second, 4<<30)
+	defer s.Done()
+	base := findBase(t)
+	seen := map[string]bool{}
+	var idx uint64
+	for _, n1 := range FindChildNames {
+		for _, n2 := range FindChildNames {
+			if !(n2 == "t" || n1 == "d" || n1 == n2) {
+				continue // one odd name at a time, or the same one twice
+			}
+			for _, cfg := range [][]int{{lvSpokfile, lvNothing, lvNothing}, {lvNothing, lvSpokfile, lvNothing}, {lvNothing, lvNothing, lvSpokfile}, {lvNothing, lvNothing, lvNothing}, {lvSpokfile, lvSpokBefore, lvDirSpok}} {
+				c := FindCase{Cfg: cfg, Child: []string{n1, n2}}
+				if err := c.build(base); err != nil {
+					t.Fatal(err)
+				}
+				for start := 0; start < 3; start++ {
+					for _, stop := range []int{0, 1, -1} {
+						c.Start, c.Stop = start, stop
+						idx++
+						data, _ := json.Marshal(c)
+						s.Progress(idx, data)
+						s.Tick()
+						s.Eval()
+						s.Class("odd_directory_names")
+						if f := execFind(s, base, c); f != nil && !seen[f.Sig] {
+							seen[f.Sig] = true
+							s.Violation("find", f.Sig, f.Msg, f.Size, c)
+						}
+					}
+				}
+			}
+		}
+	}
+	if s.Failed() {
+		t.Fatal("violations recorded")
+	}
+}
+
 // TestFindDeep: long chains (a working directory dozens of levels below its spokfile).
 func TestFindDeep(t *testing.T) {
 	s := ev.Open(t, "C17")
@@ -606,7 +649,11 @@ func TestFindBinary(t *testing.T) {
 		for i := 0; i < d; i++ {
 			c.Cfg = append(c.Cfg, rapid.IntRange(0, nLevelCfg-1).Draw(rt, "cfg"))
 			if i+1 < d {
-				c.Child = append(c.Child, rapid.SampledFrom([]string{"d", "t"}).Draw(rt, "child"))
+				if rapid.IntRange(0, 2).Draw(rt, "odd_child") == 0 {
+					c.Child = append(c.Child, rapid.SampledFrom(FindChildNames).Draw(rt, "child_name"))
+				} else {
+					c.Child = append(c.Child, rapid.SampledFrom([]string{"d", "t"}).Draw(rt, "child"))
+				}
 			}
 		}
 		c.Start = rapid.IntRange(0, d-1).Draw(rt, "start")
@@ -694,6 +741,30 @@ func execFindBinary(s *ev.Shard, b *sandbox.Box, c FindCase) *rp.Fail {
 	} else if res.Exit == 0 {
 		if want, ok := nearest(0); !ok || found != want {
 			return &rp.Fail{Sig: "wrong-spokfile", Size: size, Msg: fmt.Sprintf("%s: spok used %q, not the nearest spokfile above cwd", desc, rel(base, found))}
+		}
+	}
+	// whatever spok is asked to do from there, it works on the same spokfile (or finds none)
+	for _, action := range []string{"--vars", "--clean", "-c"} {
+		r2 := b.Run(cwd, []string{"HOME=" + stop, "PWD=" + pwd}, 20*time.Second, action)
+		if r2.TimedOut {
+			return &rp.Fail{Sig: "process-stalled", Size: size, Msg: fmt.Sprintf("%s, then `spok %s`: did not terminate within 20 s", desc, action)}
+		}
+		used := ""
+		for _, l := range strings.Split(sandbox.Strip(r2.Stdout), "\n") {
+			if strings.HasPrefix(l, "Variables defined in ") {
+				used = strings.TrimSuffix(strings.TrimPrefix(l, "Variables defined in "), ":")
+				if r, err := filepath.EvalSymlinks(used); err == nil {
+					used = r
+				}
+			}
+		}
+		switch {
+		case res.Exit == 0 && found != "" && r2.Exit != 0:
+			return &rp.Fail{Sig: "spokfile-missed", Size: size, Msg: fmt.Sprintf("%s: --show used %s, but `spok %s` from the same directory failed (exit %d, stderr %q)", desc, rel(base, found), action, r2.Exit, sandbox.Strip(r2.Stderr))}
+		case res.Exit == 0 && found != "" && used != "" && used != found:
+			return &rp.Fail{Sig: "wrong-spokfile", Size: size, Msg: fmt.Sprintf("%s: --show used %s, `spok %s` from the same directory used %s", desc, rel(base, found), action, rel(base, used))}
+		case res.Exit != 0 && r2.Exit == 0 && strings.Contains(strings.ToLower(sandbox.Strip(res.Stderr)), "no spokfile"):
+			return &rp.Fail{Sig: "found-above-stop", Size: size, Msg: fmt.Sprintf("%s: --show found no spokfile, yet `spok %s` from the same directory succeeded: %q", desc, action, sandbox.Strip(r2.Stdout))}
 		}
 	}
 	if s != nil {
